@@ -57,7 +57,7 @@ def _setup(c, ci, extra_dims=()):
     it = new_interp(use=POLY_KEYS)
     for k in FACE_CENTRES.values():
         it.contracts[k.key] = k
-    ds, conv = inputs.make_convention(it, c, conv_name, extra=[('v', tuple(extra_dims) + tuple(vdims), 'floatnan'), ('u', tuple(extra_dims) + tuple(vdims), 'floatnan'),
+    ds, conv = inputs.make_convention(it, c, conv_name, extra=[('v', tuple(extra_dims) + tuple(vdims), 'float'), ('u', tuple(extra_dims) + tuple(vdims), 'floatnan'),
                                                                   ('w', ('t',) + tuple(vdims), 'floatnan')], **kw)
     return it, ds, conv, conv_name
 
